@@ -603,6 +603,8 @@ func specEEHex(c byte) bool {
 //@ define pfbCase(w, opt) = w == obs() && old(opt != nil && opt.Format == FormatPFB)
 //@ func (*Font).Write
 //@ before "buf.Reset()" 1 lemma [C08.pfb.seg1] pfbCase(w, opt) && opos() - old(opos()) < 4294967296 ==> seghdr(old(opos()), 1) && opos() == segend(old(opos()))
-//@ before "buf.Reset()" 2 lemma [C08.pfb.seg2] pfbCase(w, opt) && opos() - old(opos()) < 4294967296 ==> (forall p1 :: p1 == segend(old(opos())) ==> seghdr(p1, 2) && opos() == segend(p1))
-//@ before "_, err = w.Write(..." 7 lemma [C08.pfb.seg3] pfbCase(w, opt) && opos() - old(opos()) < 4294967296 ==> (forall p1, p2 :: p1 == segend(old(opos())) && p2 == segend(p1) ==> seghdr(p2, 1) && opos() == segend(p2))
-//@ ensures [C08.pfb.framing] pfbCase(w, opt) && result == nil && opos() - old(opos()) < 4294967296 ==> (forall p1, p2, p3 :: p1 == segend(old(opos())) && p2 == segend(p1) && p3 == segend(p2) ==> seghdr(old(opos()), 1) && seghdr(p1, 2) && seghdr(p2, 1) && seghdr(p3, 3) && opos() == mathint(p3 + 2))
+//@ before "n = uint32(buf.Len())" 1 lemma [C08.pfb.seg1.kept] pfbCase(w, opt) && opos() - old(opos()) < 4294967296 ==> opos() == segend(old(opos()))
+//@ before "buf.Reset()" 2 lemma [C08.pfb.seg2] pfbCase(w, opt) && opos() - old(opos()) < 4294967296 ==> seghdr(segend(old(opos())), 2) && opos() == segend(segend(old(opos())))
+//@ before "n = uint32(buf.Len())" 2 lemma [C08.pfb.seg2.kept] pfbCase(w, opt) && opos() - old(opos()) < 4294967296 ==> opos() == segend(segend(old(opos())))
+//@ before "_, err = w.Write(..." 7 lemma [C08.pfb.seg3] pfbCase(w, opt) && opos() - old(opos()) < 4294967296 ==> seghdr(segend(segend(old(opos()))), 1) && opos() == segend(segend(segend(old(opos()))))
+//@ ensures [C08.pfb.framing] pfbCase(w, opt) && result == nil && opos() - old(opos()) < 4294967296 ==> seghdr(old(opos()), 1) && seghdr(segend(old(opos())), 2) && seghdr(segend(segend(old(opos()))), 1) && seghdr(segend(segend(segend(old(opos())))), 3) && opos() == mathint(segend(segend(segend(old(opos())))) + 2)
